@@ -195,3 +195,95 @@ Print Assumptions c01_tetris_rows_legal.
 Print Assumptions c01_legalize_sound.
 Print Assumptions c01_legalize_circuit_legal.
 Print Assumptions c01_turned_polarised_cell_refuted.
+
+(* ================================================================== *)
+(* last clause of C01: "it never fails when success is trivial" (LegalizerTrivialProofs) *)
+Require Import CV.LegalizerTrivialProofs.
+
+(* [F] the Abacus pass of the RAW model places EVERY cell when the cells are row-high, have no
+   row polarity (and an own orientation other than the enumerator INVALID), and their total width
+   is at most the total segment width less maxw per segment (maxw >= every cell width): whatever
+   the targets, the segment list (sorted or not, overlapping or not) and the order of the cells.
+   (has_value res ci = position ci of the result is Some _; rwidth r = maxX - minX.) *)
+Theorem c01_abacus_all_placed : forall rows0 cells rh maxw,
+  (forall r, In r rows0 -> maxY (rr r) - minY (rr r) = rh) ->
+  Forall (fun c => 0 < cw c <= maxw /\ ch c = rh /\ cpol c = pANY /\ cor c <> oINVALID) cells ->
+  sumZ (map cw cells) <= sumZ (map rwidth rows0) - Z.of_nat (length rows0) * maxw ->
+  forall ci, (ci < length cells)%nat -> has_value (abacus_run rows0 cells) ci.
+Proof. exact abacus_all_placed. Qed.
+
+(* [F] Legalizer::run of the RAW model returns Ok under the same hypotheses, for every order that
+   lists every cell index at least once and nothing twice (entries beyond the last cell allowed) *)
+Theorem c01_legalize_trivial : forall rows0 cellsL order rh maxw,
+  (forall r, In r rows0 -> maxY (rr r) - minY (rr r) = rh /\ nonempty_row r) ->
+  Forall (fun c => 0 < cw c <= maxw /\ ch c = rh /\ cpol c = pANY /\ cor c <> oINVALID) cellsL ->
+  NoDup order -> (forall ci, (ci < length cellsL)%nat -> In ci order) ->
+  sumZ (map cw cellsL) <= sumZ (map rwidth rows0) - Z.of_nat (length rows0) * maxw ->
+  exists pl, legalize rows0 cellsL order = Ok pl.
+Proof. exact legalize_trivial. Qed.
+
+(* [F for every circuit, with the two side conditions below; the bound of the statement is
+   sufficient as it stands (no off-by-one)] THE last clause of C01 for the RAW algorithm:
+   DetailedPlacer::legalize succeeds on every circuit that Circuit.trivially_feasible accepts
+   (rows of one height, every movable cell row-high, without row polarity, of positive width,
+   total width <= total free segment width - #segments * max cell width), provided
+   (a) no movable cell has the enumerator INVALID as its own orientation -- needed, see
+       c01_trivial_invalid_orientation_refuted -- and
+   (b) the order lists every movable cell, and none twice (computeCellOrder returns a
+       permutation of 0..n-1; needed, see c01_trivial_duplicate_order_refuted).
+   No hypothesis on the rows (they may overlap or be turned), on fixed cells or on positions. *)
+Theorem c01_never_fails_when_trivial : forall c order,
+  trivially_feasible c = true ->
+  (forall k, In k (movable c) -> c_o k <> oINVALID) ->
+  NoDup order /\ (forall ci, (ci < length (movable c))%nat -> In ci order) ->
+  exists c', legalize_circuit c order = LegOk c'.
+Proof. exact legalize_circuit_trivially_feasible. Qed.
+
+(* [R] discrepancy with the statement as written: a movable cell WITHOUT row polarity whose own
+   orientation is CellOrientation::INVALID (an enumerator a caller can store) is refused by
+   every row -- getOrientation returns the cell's own orientation for polarity ANY and
+   evaluatePlacement rejects INVALID -- so legalization fails although success is trivial *)
+Theorem c01_trivial_invalid_orientation_refuted :
+  trivially_feasible w_invalid_orientation = true /\
+  legalize_circuit w_invalid_orientation [0%nat] = LegNotAllPlaced.
+Proof. exact trivially_feasible_invalid_orientation_refuted. Qed.
+
+(* [R] (model-level side condition, not reachable through computeCellOrder) an order with a
+   repeated index makes the Abacus pass place the cell several times and can exhaust the room *)
+Theorem c01_trivial_duplicate_order_refuted :
+  trivially_feasible w_duplicates = true /\
+  legalize_circuit w_duplicates [0%nat; 0%nat; 0%nat; 1%nat] = LegNotAllPlaced /\
+  exists c', legalize_circuit w_duplicates [0%nat; 1%nat] = LegOk c'.
+Proof. exact trivially_feasible_duplicate_order_refuted. Qed.
+
+(* non-vacuity: two rows, an obstruction splitting the first (three free segments of total width
+   18), three cells of width 2 far outside the rows and on top of each other: accepted by
+   trivially_feasible, not legal before, legalized into a legal placement *)
+Definition ex_trivial : circuit :=
+  {| rows := [ {| rr := {| minX := 0; maxX := 10; minY := 0; maxY := 2 |}; ro := oN |};
+               {| rr := {| minX := 0; maxX := 10; minY := 2; maxY := 4 |}; ro := oFS |} ];
+     cells := [ {| c_x := 4; c_y := 0; c_w := 2; c_h := 2; c_o := oN; c_pol := pANY; c_fixed := true; c_obs := true |};
+                {| c_x := 40; c_y := -7; c_w := 2; c_h := 2; c_o := oN; c_pol := pANY; c_fixed := false; c_obs := true |};
+                {| c_x := 40; c_y := -7; c_w := 2; c_h := 2; c_o := oFS; c_pol := pANY; c_fixed := false; c_obs := true |};
+                {| c_x := 5; c_y := 1; c_w := 2; c_h := 2; c_o := oS; c_pol := pANY; c_fixed := false; c_obs := true |} ] |}.
+Example c01_trivial_nonvacuous :
+  trivially_feasible ex_trivial = true /\
+  (forall k, In k (movable ex_trivial) -> c_o k <> oINVALID) /\
+  (NoDup [2%nat; 0%nat; 1%nat] /\ (forall ci, (ci < length (movable ex_trivial))%nat -> In ci [2%nat; 0%nat; 1%nat])) /\
+  legalb ex_trivial = false /\
+  exists c', legalize_circuit ex_trivial [2%nat; 0%nat; 1%nat] = LegOk c' /\ legalb c' = true.
+Proof.
+  split; [vm_compute; reflexivity|]. split; [|split; [split|split]].
+  - intros k Hk. vm_compute in Hk. destruct Hk as [<-|[<-|[<-|[]]]]; discriminate.
+  - repeat constructor; cbn; intuition discriminate.
+  - intros ci Hci. change (length (movable ex_trivial)) with 3%nat in Hci.
+    destruct ci as [|[|[|ci]]]; cbn; auto; lia.
+  - vm_compute. reflexivity.
+  - eexists. split; vm_compute; reflexivity.
+Qed.
+
+Print Assumptions c01_abacus_all_placed.
+Print Assumptions c01_legalize_trivial.
+Print Assumptions c01_never_fails_when_trivial.
+Print Assumptions c01_trivial_invalid_orientation_refuted.
+Print Assumptions c01_trivial_duplicate_order_refuted.
